@@ -29,11 +29,18 @@ def int_world_array(name):
   return mk
 
 
-def canary(run, oid):
-  """vacuity guard: the accumulated assumptions must be satisfiable"""
+def canary(run, oid, hints=None):
+  """vacuity guard: the accumulated assumptions must be satisfiable. hints: concrete inputs (contract-language
+  texts) under which the solver looks for the witness when the unconstrained search is inconclusive -- a model of
+  (assumptions and hint) is a model of the assumptions"""
   import z3
 
-  return run.obligation(oid, z3.BoolVal(False), expect="refutable", kind="vacuity-canary")
+  ob = run.obligation(oid, z3.BoolVal(False), expect="refutable", kind="vacuity-canary")
+  if hints == "auto":
+    ob.meta["sat_hints"] = [auto_hint(run)]
+  elif hints:
+    ob.meta["sat_hints"] = [[run.term(t) for t in h] for h in hints]
+  return ob
 
 
 def native_cmd(what, model, masked=True, sig=None):
@@ -56,3 +63,55 @@ def native_cmd(what, model, masked=True, sig=None):
     cmd += ["--sig", str(sig)]
   cmd += ["--masked", "1" if masked else "0"]
   return cmd
+
+
+def auto_hint(run, extra_terms=()):
+  """a concrete candidate witness for a vacuity canary of a real-arithmetic kernel run: every real-valued array
+  cell the assumptions mention is pinned to a simple well-formed value (4-vectors: the identity quaternion
+  (1,0,0,0); 3-vectors: the unit vector e_z; 3x3 matrices: the identity; scalars: 0). A model of
+  (assumptions and these equalities) is a model of the assumptions."""
+  import z3
+
+  from wpv.sym import ArrRef, TVec
+
+  elem = {}
+  for name, v in run.params.items():
+    if isinstance(v, ArrRef):
+      elem[name] = v.elem
+  cons = []
+  seen = set()
+  stack = [a for a in run.ex.assumes if isinstance(a, z3.ExprRef)] + list(extra_terms)
+  done = set()
+  while stack:
+    t = stack.pop()
+    if t.get_id() in seen:
+      continue
+    seen.add(t.get_id())
+    if z3.is_quantifier(t):
+      stack.append(t.body())
+      continue
+    if z3.is_app(t):
+      d = t.decl()
+      if d.kind() == z3.Z3_OP_UNINTERPRETED and t.num_args() >= 1 and z3.is_real(t):
+        stem = d.name().split("@")[0]
+        et = elem.get(stem)
+        args = [t.arg(i) for i in range(t.num_args())]
+        if et is not None and not any(z3.is_var(a) for a in args) and t.get_id() not in done:
+          done.add(t.get_id())
+          if isinstance(et, TVec):
+            nd = len(et.shape)
+            comp = [a.as_long() if z3.is_int_value(a) else None for a in args[-nd:]]
+            if None not in comp:
+              if et.shape == (4,):
+                val = 1 if comp[0] == 0 else 0
+              elif et.shape == (3,):
+                val = 1 if comp[0] == 2 else 0
+              elif len(et.shape) == 2 and et.shape[0] == et.shape[1]:
+                val = 1 if comp[0] == comp[1] else 0
+              else:
+                val = 0
+              cons.append(t == val)
+          else:
+            cons.append(t == 0)
+      stack.extend(t.children())
+  return cons
